@@ -58,8 +58,8 @@ type regType struct {
 }
 
 var (
-	cdc      *amino.Codec
-	regTypes []*regType
+	cdc       *amino.Codec
+	regTypes  []*regType
 	regByName = map[string]*regType{}
 )
 
